@@ -541,6 +541,8 @@ func (p *projSpec) renderTarget(t *targetSpec) string {
 			pre = append(pre, "    acc.append(len(acc))")
 		case "kwonly":
 			args = append(args, fmt.Sprintf("kw_%s(1, b = 2)", t.Name))
+		case "manynested":
+			args = append(args, fmt.Sprintf("len(mn_%s())", t.Name))
 		case "cacheonce":
 			pre = append(pre, fmt.Sprintf("    CACHE0.once(\"k_%s\", lambda: %s)", t.Name, r.Val.render()))
 			args = append(args, "CACHE0")
@@ -593,6 +595,21 @@ func (p *projSpec) renderTarget(t *targetSpec) string {
 			n := t.Name
 			fmt.Fprintf(&sb, "def fk_%s_a():\n    return %s\n\ndef fk_%s_b():\n    return 2\n\n", n, r.Val.render(), n)
 			fmt.Fprintf(&sb, "FK_%s = {fk_%s_a: 1, (fk_%s_b, 3): 2, struct(f = fk_%s_b): 3}\nFS_%s = set([fk_%s_a, fk_%s_b])\n\n", n, n, n, n, n, n, n)
+		}
+	}
+	for i := range t.Refs {
+		if r := &t.Refs[i]; r.Kind == "manynested" {
+			// 24 functions with 5 nested functions each: the interpreter hands out a fresh
+			// wrapper object per nested function whenever a function's code is described
+			fmt.Fprintf(&sb, "def mn_%s():\n    out = []\n", t.Name)
+			for a := 0; a < 24; a++ {
+				fmt.Fprintf(&sb, "    def a%d():\n", a)
+				for b := 0; b < 5; b++ {
+					fmt.Fprintf(&sb, "        def b%d():\n            return (%s, %d, %d)\n", b, r.Val.render(), a, b)
+				}
+				fmt.Fprintf(&sb, "        return [b0(), b1(), b2(), b3(), b4()]\n    out.append(a%d())\n", a)
+			}
+			sb.WriteString("    return out\n\n")
 		}
 	}
 	for i := range t.Refs {
